@@ -2,6 +2,9 @@ package interp
 
 import (
 	"fmt"
+	"os"
+	"strconv"
+	"strings"
 	"go/token"
 	"go/types"
 	"unicode/utf8"
@@ -227,7 +230,101 @@ func ropeIndex(r *Rope, i int64) value {
 	panic(TargetPanic{Msg: fmt.Sprintf("index out of range [%d] with length %d", i, off)})
 }
 
+// lenMinus recognises the term "len(r) - k" (as built by the interpreter's
+// subtraction) for a small constant k.
+func lenMinus(r *Rope, v value) (int, bool) {
+	s, ok := v.(SymInt)
+	if !ok {
+		return 0, false
+	}
+	lt, ok := ropeLen(r).(SymInt)
+	if !ok {
+		return 0, false
+	}
+	pre := "(- " + lt.T + " "
+	if strings.HasPrefix(s.T, pre) && strings.HasSuffix(s.T, ")") {
+		if k, err := strconv.Atoi(s.T[len(pre) : len(s.T)-1]); err == nil && k >= 0 && k <= 64 {
+			return k, true
+		}
+	}
+	return 0, false
+}
+
+// ropeTail splits r into (head, tail) with len(tail) == k, when the tail lies
+// inside the last literal part or inside a final String atom (which is then
+// split by a fresh variable); ok is false otherwise.
+func ropeTail(c *Ctx, r *Rope, k int) (head, tail value, ok bool) {
+	return partsTail(c, r.Parts, k)
+}
+
+func partsTail(c *Ctx, parts []Part, k int) (head, tail value, ok bool) {
+	n := len(parts)
+	if k == 0 {
+		return mkRope(parts), "", true
+	}
+	if n == 0 {
+		return nil, nil, false // the string is shorter than k
+	}
+	last := parts[n-1]
+	rest := func(used int) (value, value, bool) {
+		// the last part is shorter than k: the tail reaches into the parts before
+		h, t, ok := partsTail(c, parts[:n-1], k-used)
+		if !ok {
+			return nil, nil, false
+		}
+		return h, ropeConcat(t, mkRope([]Part{last})), true
+	}
+	switch last.Kind {
+	case PLit:
+		if len(last.Lit) >= k {
+			h := append([]Part{}, parts[:n-1]...)
+			if r := last.Lit[:len(last.Lit)-k]; r != "" {
+				h = append(h, Part{Kind: PLit, Lit: r})
+			}
+			return mkRope(h), last.Lit[len(last.Lit)-k:], true
+		}
+		return rest(len(last.Lit))
+	case PAtom:
+		// a = a1 ++ a2 with |a2| = k when |a| >= k
+		if c.Decide(fmt.Sprintf("(>= (str.len %s) %d)", last.Lit, k)) {
+			a1, a2 := c.NewStr("head"), c.NewStr("tail")
+			c.addPC(fmt.Sprintf("(and (= %s (str.++ %s %s)) (= (str.len %s) %d))", last.Lit, a1, a2, a2, k))
+			if ai := c.Atoms[last.Lit]; ai != nil {
+				c.Atoms[a1] = &AtomInfo{Name: a1, Class: ai.Class, NoBytes: ai.NoBytes}
+				c.Atoms[a2] = &AtomInfo{Name: a2, Class: ai.Class, NoBytes: ai.NoBytes}
+			}
+			h := append(append([]Part{}, parts[:n-1]...), Part{Kind: PAtom, Lit: a1})
+			return mkRope(h), mkRope([]Part{{Kind: PAtom, Lit: a2}}), true
+		}
+		for j := 0; j < k; j++ {
+			if c.Decide(fmt.Sprintf("(= (str.len %s) %d)", last.Lit, j)) {
+				return rest(j)
+			}
+		}
+	}
+	return nil, nil, false
+}
+
 func ropeSlice(c *Ctx, r *Rope, lo, hi value) value {
+	// s[len(s)-k:] and s[:len(s)-k]: the idiom for looking at / cutting off a
+	// suffix of known size, without enumerating the possible lengths
+	if hi == nil {
+		if k, ok := lenMinus(r, lo); ok {
+			if _, t, ok := ropeTail(c, r, k); ok {
+				return t
+			}
+		}
+	}
+	if lo == nil {
+		if k, ok := lenMinus(r, hi); ok {
+			if h, _, ok := ropeTail(c, r, k); ok {
+				return h
+			}
+		}
+	}
+	if os.Getenv("VERIF_DEBUG_SLICE") != "" {
+		fmt.Fprintf(os.Stderr, "ropeSlice fallback: rope=%s lo=%v hi=%v len=%v\n", toString(r), lo, hi, ropeLen(r))
+	}
 	l := int64(0)
 	if lo != nil {
 		l = c.Concretize(lo, 0, 1<<20)
